@@ -59,6 +59,10 @@ def normalise(n):
         return [normalise(x) for x in n]
     if not isinstance(n, dict):
         return n
+    for key in ("val", "int"):
+        # integers beyond the JSON-safe range are exported as "#<decimal>"
+        if isinstance(n.get(key), str) and n[key].startswith("#") and n[key][1:].lstrip("-").isdigit():
+            n[key] = int(n[key][1:])
     for key, v in list(n.items()):
         if isinstance(v, (dict, list)) and key != "pat":
             n[key] = normalise(v)
